@@ -49,7 +49,8 @@ def run_typed(ctx, pred, jobs, replay=None, nontrivial_rule=None):
     stats = {"cases": 0, "skipped": 0, "replay_ok": 0, "replay_diff": 0, "replay_skipped": 0, "pred_fail": 0,
              "sends": 0, "values": 0, "failed_sends": 0, "streamed": 0, "cancelled": 0, "with_halves": 0,
              "recv_errors": 0, "fail_then_deliver": 0, "variant_pinned_only": 0, "variant_fixed_only": 0,
-             "close_links": 0, "close_links_replayed_on_M_close": 0, "dropped_sending_handles": 0}
+             "close_links": 0, "close_links_replayed_on_M_close": 0, "dropped_sending_handles": 0,
+             "sends_refused_as_Closed_after_drop_or_connection_failure_F_TC_1": 0}
     kinds = {}
     fails, diffs = [], []
     for name, args, seed in jobs:
@@ -87,7 +88,8 @@ def run_typed(ctx, pred, jobs, replay=None, nontrivial_rule=None):
             for a, b in (("sends", "sends"), ("values", "values"), ("failed", "failed_sends"), ("streamed", "streamed"),
                          ("cancelled", "cancelled"), ("halves", "with_halves"), ("recverrs", "recv_errors"),
                          ("failthendeliver", "fail_then_deliver"), ("closelinks", "close_links"),
-                         ("closereplayed", "close_links_replayed_on_M_close"), ("droppedhandles", "dropped_sending_handles")):
+                         ("closereplayed", "close_links_replayed_on_M_close"), ("droppedhandles", "dropped_sending_handles"),
+                         ("closedaftergone", "sends_refused_as_Closed_after_drop_or_connection_failure_F_TC_1")):
                 stats[b] += int(m.get(a, 0))
             rp = m.get("replay")
             stats["replay_ok" if rp == "ok" else ("replay_diff" if rp == "diff" else "replay_skipped")] += 1
